@@ -169,11 +169,7 @@ def check_comment_header(ctx: Ctx, rule: str, cls):
     f = cls.methods.get("print_comments")
     if f is None:
         return
-    v = util.value_of(ctx, f)
     key = f.key("every-line-prefixed")
-    if _av.has_unk(v):
-        ctx.undecided(rule, key, "what print_comments returns is not understood", f.where())
-        return
 
     def cut(t):
         if t[0] != "mcall":
@@ -195,13 +191,21 @@ def check_comment_header(ctx: Ctx, rule: str, cls):
             out += bare(x, u)
         return out
 
-    n = 0
-    odd = []
-    for conds, leaf in _branches(v):
-        if leaf[0] in ("raise", "c") or any(c == ("not", leaf) or c == _av.mk_not(leaf) for c in conds):
-            continue  # empty on this path
-        n += 1
-        odd += bare(leaf)
+    # helpers the method delegates to are expanded before a deviation is reported (second chance, §2.8)
+    for everything in (False, True):
+        v = util.value_of(ctx, f, everything=everything)
+        if _av.has_unk(v):
+            ctx.undecided(rule, key, "what print_comments returns is not understood", f.where())
+            return
+        n = 0
+        odd = []
+        for conds, leaf in _branches(v):
+            if leaf[0] in ("raise", "c") or any(c == ("not", leaf) or c == _av.mk_not(leaf) for c in conds):
+                continue  # empty on this path
+            n += 1
+            odd += bare(leaf)
+        if n and not odd:
+            break
     if not n:
         ctx.undecided(rule, key, "no path of print_comments returns comment text", f.where())
         return
